@@ -64,6 +64,21 @@ def case? : List Sexp → Option Case
            raises := (← r.bool?), sig := (← sig? s), args := { pos := (← pos.natList?), kw := (← kw.mapM pair?) } }
   | _ => none
 
+def ev? : Sexp → Option Ev
+  | .atom "use" => some .use | .atom "useThread" => some .useThread | .atom "helpers" => some .helpers
+  | .atom "copy" => some .copy | .atom "deepcopy" => some .deepcopy
+  | .atom "aioOk" => some .aioOk | .atom "aioFail" => some .aioFail | .atom "aioSelf" => some .aioSelf
+  | .atom "gc" => some .gc | .atom "dbg" => some .dbg | .atom "scoped" => some .scoped | .atom "mocked" => some .mocked
+  | .atom "bcopy" => some .bcopy
+  | _ => none
+
+/-- the case line with the history of the world and the override flag at the end; older shapes are plain cases -/
+def xcase? (hdr : List Sexp) : Option XCase :=
+  match hdr with
+  | [k, f, a, b, r, s, pos, kw, fl, pre, rel, vk, .list hist, ovr] => do
+    some { base := (← case? [k, f, a, b, r, s, pos, kw, fl, pre, rel, vk]), hist := (← hist.mapM ev?), ovr := (← ovr.bool?) }
+  | hdr => do some { base := (← case? hdr) }
+
 def outcome? : Sexp → Option Outcome
   | .list [.atom "ok", n, w] => do some (.ok (← n.nat?) (← w.bool?))
   | .list [.atom "raisedUser", n] => n.nat?.map .raisedUser
@@ -113,14 +128,14 @@ def describe (m i : Report) : String :=
 
 /-- `hdr` = arguments of the case line after the id; `body` = the observation lines -/
 def handle (id : Nat) (hdr : List Sexp) (body : List Sexp) : String :=
-  match case? hdr, report? body with
+  match xcase? hdr, report? body with
   | some c, some impl =>
     -- a cell outside the supported bindings is never generated; if one arrives, `spec` rejects whatever was observed
     -- (SPEC=fail:unsupported-cell, also for the model's own report)
-    let model := modelReport c
+    let model := modelReportX c
     let corr := model == impl
-    let spec := specClause c impl
-    let specm := specClause c model
+    let spec := specClauseX c impl
+    let specm := specClauseX c model
     let cs := if corr then "ok" else "diff"
     let d := if corr then "" else (describe model impl).replace "\n" " "
     let f (s : String) := if s == "ok" then "ok" else "fail:" ++ s
